@@ -8,7 +8,7 @@ ID = "C20"
 NEEDS_CLI = True
 RULE = ("op td.hash with every EIP712Domain type drawn from the five standard fields: all 326 duplicate-free orderings of subsets (including empty), "
         "all sequences with one repeated field, one foreign name at each position, each field x each wrong type (incl. bytes032 / uint0256 spellings), "
-        "document without the domain type; the command-line routes hash typeddata [--message-hash] and sign typeddata on a sample of well- and ill-formed domain types; domain values generated to match the declared members; the 31 accepted ones are hashed and judged by the EIP-712 spec; "
+        "document without the domain type; equivalent JSON spellings (white space, \\uXXXX escapes in names and type strings) of all 32 sublists and a sample of refused types; the command-line routes hash typeddata [--message-hash] and sign typeddata on a sample of well- and ill-formed domain types; domain values generated to match the declared members; the 31 accepted ones are hashed and judged by the EIP-712 spec; "
         "non-trivial = distinct domain type; judge = Spec.Eip712 (non-empty sublist of the standard fields)")
 EXHAUSTIVE_SWEEPS = {"quick": ["all 326 duplicate-free orderings of subsets of the 5 standard fields", "all single-repeat sequences of <= 3 fields", "5 fields x 14 wrong types"],
                      "thorough": ["all 326 duplicate-free orderings of subsets of the 5 standard fields", "all single-repeat sequences", "5 fields x 14 wrong types"]}
@@ -65,6 +65,17 @@ def gen(rng, tier):
             for ctx in (STD, [STD[i]], STD[:i + 1]):
                 s = [(a, (w if a == n else b)) for a, b in ctx]
                 add(s, "wrong-type")
+    # the 31 well-formed domain types (and a sample of the refused ones) in equivalent JSON spellings: white space, any
+    # character of a member name / type string written as a \\uXXXX escape — the document is the same, so is the verdict
+    from vlib import jsonspell
+    for k in range(0, 6):
+        for sub in itertools.combinations(STD, k):
+            d0 = doc(list(sub))
+            cases.append(Case("td.hash " + hx(jsonspell.respell(rng, d0)), tags=("respelled", "sublist")))
+            cases.append(Case("td.hash " + hx(jsonspell.respell(rng, d0, p_escape=0.5)), tags=("respelled", "sublist")))
+            cases.append(Case("td.hash " + hx(jsonspell.escape_everything(d0)), tags=("respelled", "all-escaped")))
+    for c in rng.sample([c for c in cases if c.tags[0] in ("repeated", "foreign", "wrong-type")], 60):
+        cases.append(Case("td.hash " + hx(jsonspell.respell(rng, bytes.fromhex(c.line.split(" ")[1]).decode(), p_escape=0.4)), tags=("respelled", "refused")))
     add([], "no-domain-type", include_domain_type=False)
     add([STD[0]], "no-domain-type", include_domain_type=False)
     # every command-line route that reads typed data must apply the same check: hash typeddata, hash typeddata
